@@ -303,6 +303,21 @@ def d4(cx: Cx, ob: Ob) -> None:
             ob.violate(fn.qualname, where(fn, ev.line), "rows are kept only conditionally: some rows disappear from the file", detail="row-filter")
     if any(callee_name(c) in ("sorted", "reversed", "sort", "reverse") for c, _, _ in s.calls() if any(op(x) == "new" for x in subterms(c))):
         ob.violate(fn.qualname, fn.where, "rows are re-ordered before writing", detail="row-order")
+    # the header row is taken out of the data exactly when `header` is set
+    hb = [ev for ev, _ in s.walk() if ev.kind == "bind" and ev.a == "_header"]
+    for ev in hb[:1]:
+        v = ev.b
+        okh = op(v) == "ifexp" and v[1] == ("param", "header") and callee_name(v[2]) == "next" and is_const(v[3], None)
+        if not okh:
+            guards_ok = False
+            if callee_name(v) == "next":
+                # `if header: _header = next(reader)` form
+                for e2, c2 in s.walk():
+                    if e2 is ev or (e2.kind == "bind" and e2.a == "_header" and e2.line == ev.line):
+                        guards_ok = any(g.kind == "guard" and g.a == ("param", "header") and g.b is True for g in c2.guards)
+                        break
+            if not guards_ok:
+                ob.violate(fn.qualname, where(fn, ev.line), f"the header row is taken as `{show(v)[:50]}`, not `next(reader) if header else None`: with header=False the first data row is swallowed (or with header=True the header is converted like data)", detail="header-flag")
     rows_w = [(c, ev) for c, ev, _ in s.calls("writerows")]
     hdr_w = [(c, ev) for c, ev, ctx in s.calls("writerow") if not ctx.loops]
     if not rows_w:
